@@ -694,6 +694,12 @@ let rec fold_right f a0 = function
 | [] -> a0
 | b :: t -> f b (fold_right f a0 t)
 
+(** val existsb : ('a1 -> bool) -> 'a1 list -> bool **)
+
+let rec existsb f = function
+| [] -> false
+| a :: l0 -> (||) (f a) (existsb f l0)
+
 (** val firstn : nat -> 'a1 list -> 'a1 list **)
 
 let rec firstn n0 l =
@@ -717,6 +723,12 @@ let rec skipn n0 l =
 let rec seq start = function
 | O -> []
 | S len0 -> start :: (seq (S start) len0)
+
+(** val repeat : 'a1 -> nat -> 'a1 list **)
+
+let rec repeat x = function
+| O -> []
+| S k -> x :: (repeat x k)
 
 type ascii =
 | Ascii of bool * bool * bool * bool * bool * bool * bool * bool
@@ -844,6 +856,23 @@ let rec vlistN = function
                | None -> None)
    | _ -> None)
 
+(** val vNs : val0 -> n list option **)
+
+let vNs = function
+| VL l -> vlistN l
+| _ -> None
+
+(** val omap : ('a1 -> 'a2 option) -> 'a1 list -> 'a2 list option **)
+
+let rec omap f = function
+| [] -> Some []
+| x :: r ->
+  (match f x with
+   | Some y -> (match omap f r with
+                | Some t -> Some (y :: t)
+                | None -> None)
+   | None -> None)
+
 (** val ofN : n -> val0 **)
 
 let ofN n0 =
@@ -930,6 +959,13 @@ let dna_eqb a b =
   match dna_compare a b with
   | Eq -> true
   | _ -> false
+
+(** val dna_leb : dna -> dna -> bool **)
+
+let dna_leb a b =
+  match dna_compare a b with
+  | Gt -> false
+  | _ -> true
 
 (** val canon : dna -> dna **)
 
@@ -2501,6 +2537,125 @@ let lane s i =
 let decode k s =
   map (fun p -> lane s (sub (sub k (S O)) p)) (seq O k)
 
+type kinit =
+| IEmpty
+| IFromU64 of n
+| IFromBytes of n list
+| IFromAscii of n list
+
+type kop =
+| OExtL of n
+| OExtR of n
+| ORc
+| OSet of nat * n
+| OSetSlice of nat * nat * n
+| OMinRc
+
+(** val kinit_run : kcfg -> kinit -> n option **)
+
+let kinit_run c = function
+| IEmpty -> Some kempty
+| IFromU64 v -> from_u64 c v
+| IFromBytes l -> from_bytes c l
+| IFromAscii l -> from_ascii c l
+
+(** val kstep : kcfg -> n -> kop -> n option **)
+
+let kstep c s = function
+| OExtL b -> kextend_left c s b
+| OExtR b -> kextend_right c s b
+| ORc -> krc c s
+| OSet (pos, b) -> set_mut c s pos b
+| OSetSlice (pos, n0, v) -> set_slice_mut c s pos n0 v
+| OMinRc -> min_rc c s
+
+(** val ksteps : kcfg -> n -> kop list -> n option **)
+
+let rec ksteps c s = function
+| [] -> Some s
+| o :: r -> (match kstep c s o with
+             | Some s' -> ksteps c s' r
+             | None -> None)
+
+(** val khist : kcfg -> kinit -> kop list -> n option **)
+
+let khist c i ops =
+  match kinit_run c i with
+  | Some s -> ksteps c s ops
+  | None -> None
+
+(** val sinit : nat -> kinit -> dna **)
+
+let sinit k = function
+| IEmpty -> repeat N0 k
+| IFromU64 v -> digits4 k v
+| IFromBytes l -> firstn k l
+| IFromAscii l -> map ascii_base (firstn k l)
+
+(** val sstep : dna -> kop -> dna **)
+
+let sstep l = function
+| OExtL b -> extend_left l b
+| OExtR b -> extend_right l b
+| ORc -> rc l
+| OSet (pos, b) -> upd pos l b
+| OSetSlice (pos, n0, v) ->
+  splice pos
+    (firstn n0
+      (digits4 (S (S (S (S (S (S (S (S (S (S (S (S (S (S (S (S (S (S (S (S (S
+        (S (S (S (S (S (S (S (S (S (S (S O)))))))))))))))))))))))))))))))) v))
+    l
+| OMinRc -> canon l
+
+(** val shist : nat -> kinit -> kop list -> dna **)
+
+let shist k i ops =
+  fold_left sstep ops (sinit k i)
+
+(** val le_bytes : nat -> n -> n list **)
+
+let rec le_bytes n0 x =
+  match n0 with
+  | O -> []
+  | S m ->
+    (N.modulo x (Npos (XO (XO (XO (XO (XO (XO (XO (XO XH)))))))))) :: 
+      (le_bytes m (N.div x (Npos (XO (XO (XO (XO (XO (XO (XO (XO XH)))))))))))
+
+(** val hash_feed : kcfg -> n -> n list **)
+
+let hash_feed c s =
+  le_bytes (Nat.div c.kW (S (S (S (S (S (S (S (S O))))))))) s
+
+(** val k_eq : n -> n -> bool **)
+
+let k_eq =
+  N.eqb
+
+(** val k_cmp : n -> n -> comparison **)
+
+let k_cmp =
+  N.compare
+
+(** val insert_by : ('a1 -> 'a1 -> bool) -> 'a1 -> 'a1 list -> 'a1 list **)
+
+let rec insert_by leb0 x l = match l with
+| [] -> x :: []
+| y :: r -> if leb0 x y then x :: l else y :: (insert_by leb0 x r)
+
+(** val sort_by : ('a1 -> 'a1 -> bool) -> 'a1 list -> 'a1 list **)
+
+let sort_by leb0 l =
+  fold_right (insert_by leb0) [] l
+
+(** val dedup_by : ('a1 -> 'a1 -> bool) -> 'a1 list -> 'a1 list **)
+
+let rec dedup_by eqb2 = function
+| [] -> []
+| x :: r ->
+  (match dedup_by eqb2 r with
+   | [] -> x :: []
+   | y :: t -> if eqb2 x y then y :: t else x :: (y :: t))
+
 (** val cfg_of : n -> n -> kcfg **)
 
 let cfg_of w k =
@@ -2513,6 +2668,165 @@ type handler = val0 list -> val0 option
 let rec lookup op = function
 | [] -> None
 | p :: r -> let (n0, h) = p in if eqb1 op n0 then Some h else lookup op r
+
+(** val v_kinit : val0 -> kinit option **)
+
+let v_kinit = function
+| VL l0 ->
+  (match l0 with
+   | [] -> None
+   | v0 :: l1 ->
+     (match v0 with
+      | VN n0 ->
+        (match n0 with
+         | N0 -> (match l1 with
+                  | [] -> Some IEmpty
+                  | _ :: _ -> None)
+         | Npos p ->
+           (match p with
+            | XI p0 ->
+              (match p0 with
+               | XH ->
+                 (match l1 with
+                  | [] -> None
+                  | v1 :: l2 ->
+                    (match v1 with
+                     | VL l ->
+                       (match l2 with
+                        | [] ->
+                          (match vlistN l with
+                           | Some d -> Some (IFromAscii d)
+                           | None -> None)
+                        | _ :: _ -> None)
+                     | _ -> None))
+               | _ -> None)
+            | XO p0 ->
+              (match p0 with
+               | XH ->
+                 (match l1 with
+                  | [] -> None
+                  | v1 :: l2 ->
+                    (match v1 with
+                     | VL l ->
+                       (match l2 with
+                        | [] ->
+                          (match vlistN l with
+                           | Some d -> Some (IFromBytes d)
+                           | None -> None)
+                        | _ :: _ -> None)
+                     | _ -> None))
+               | _ -> None)
+            | XH ->
+              (match l1 with
+               | [] -> None
+               | v1 :: l ->
+                 (match v1 with
+                  | VN x ->
+                    (match l with
+                     | [] -> Some (IFromU64 x)
+                     | _ :: _ -> None)
+                  | _ -> None))))
+      | _ -> None))
+| _ -> None
+
+(** val v_kop : val0 -> kop option **)
+
+let v_kop = function
+| VL l ->
+  (match l with
+   | [] -> None
+   | v0 :: l0 ->
+     (match v0 with
+      | VN n0 ->
+        (match n0 with
+         | N0 ->
+           (match l0 with
+            | [] -> None
+            | v1 :: l1 ->
+              (match v1 with
+               | VN b -> (match l1 with
+                          | [] -> Some (OExtL b)
+                          | _ :: _ -> None)
+               | _ -> None))
+         | Npos p ->
+           (match p with
+            | XI p0 ->
+              (match p0 with
+               | XI _ -> None
+               | XO p1 ->
+                 (match p1 with
+                  | XH -> (match l0 with
+                           | [] -> Some OMinRc
+                           | _ :: _ -> None)
+                  | _ -> None)
+               | XH ->
+                 (match l0 with
+                  | [] -> None
+                  | v1 :: l1 ->
+                    (match v1 with
+                     | VN pos ->
+                       (match l1 with
+                        | [] -> None
+                        | v2 :: l2 ->
+                          (match v2 with
+                           | VN b ->
+                             (match l2 with
+                              | [] -> Some (OSet ((N.to_nat pos), b))
+                              | _ :: _ -> None)
+                           | _ -> None))
+                     | _ -> None)))
+            | XO p0 ->
+              (match p0 with
+               | XI _ -> None
+               | XO p1 ->
+                 (match p1 with
+                  | XH ->
+                    (match l0 with
+                     | [] -> None
+                     | v1 :: l1 ->
+                       (match v1 with
+                        | VN pos ->
+                          (match l1 with
+                           | [] -> None
+                           | v2 :: l2 ->
+                             (match v2 with
+                              | VN n1 ->
+                                (match l2 with
+                                 | [] -> None
+                                 | v3 :: l3 ->
+                                   (match v3 with
+                                    | VN x ->
+                                      (match l3 with
+                                       | [] ->
+                                         Some (OSetSlice ((N.to_nat pos),
+                                           (N.to_nat n1), x))
+                                       | _ :: _ -> None)
+                                    | _ -> None))
+                              | _ -> None))
+                        | _ -> None))
+                  | _ -> None)
+               | XH -> (match l0 with
+                        | [] -> Some ORc
+                        | _ :: _ -> None))
+            | XH ->
+              (match l0 with
+               | [] -> None
+               | v1 :: l1 ->
+                 (match v1 with
+                  | VN b ->
+                    (match l1 with
+                     | [] -> Some (OExtR b)
+                     | _ :: _ -> None)
+                  | _ -> None))))
+      | _ -> None))
+| _ -> None
+
+(** val cmp_code : comparison -> n **)
+
+let cmp_code = function
+| Eq -> Npos XH
+| Lt -> N0
+| Gt -> Npos (XO XH)
 
 (** val kmer_ops : kcfg -> (string * handler) list **)
 
@@ -3033,6 +3347,72 @@ let kmer_ops c =
              | _ -> None))
        | _ -> None))) :: (((String ((Ascii (true, true, false, true, false,
     true, true, false)), (String ((Ascii (false, true, true, true, false,
+    true, false, false)), (String ((Ascii (false, false, false, true, false,
+    true, true, false)), (String ((Ascii (true, false, false, true, false,
+    true, true, false)), (String ((Ascii (true, true, false, false, true,
+    true, true, false)), (String ((Ascii (false, false, true, false, true,
+    true, true, false)), EmptyString)))))))))))), (fun a ->
+    match a with
+    | [] -> None
+    | i :: l ->
+      (match l with
+       | [] -> None
+       | y :: l0 ->
+         (match y with
+          | VL ops ->
+            (match l0 with
+             | [] ->
+               (match v_kinit i with
+                | Some i' ->
+                  (match omap v_kop ops with
+                   | Some ops' -> Some (ofopt ofN (khist c i' ops'))
+                   | None -> None)
+                | None -> None)
+             | _ :: _ -> None)
+          | _ -> None)))) :: (((String ((Ascii (true, true, false, true,
+    false, true, true, false)), (String ((Ascii (false, true, true, true,
+    false, true, false, false)), (String ((Ascii (false, false, false, true,
+    false, true, true, false)), (String ((Ascii (true, false, false, false,
+    false, true, true, false)), (String ((Ascii (true, true, false, false,
+    true, true, true, false)), (String ((Ascii (false, false, false, true,
+    false, true, true, false)), (String ((Ascii (true, true, true, true,
+    true, false, true, false)), (String ((Ascii (false, true, true, false,
+    false, true, true, false)), (String ((Ascii (true, false, true, false,
+    false, true, true, false)), (String ((Ascii (true, false, true, false,
+    false, true, true, false)), (String ((Ascii (false, false, true, false,
+    false, true, true, false)), EmptyString)))))))))))))))))))))), (fun a ->
+    match a with
+    | [] -> None
+    | y :: l ->
+      (match y with
+       | VN s ->
+         (match l with
+          | [] -> Some (ofNs (hash_feed c s))
+          | _ :: _ -> None)
+       | _ -> None))) :: (((String ((Ascii (true, true, false, true, false,
+    true, true, false)), (String ((Ascii (false, true, true, true, false,
+    true, false, false)), (String ((Ascii (true, true, false, false, false,
+    true, true, false)), (String ((Ascii (true, false, true, true, false,
+    true, true, false)), (String ((Ascii (false, false, false, false, true,
+    true, true, false)), EmptyString)))))))))), (fun a ->
+    match a with
+    | [] -> None
+    | y :: l ->
+      (match y with
+       | VN s1 ->
+         (match l with
+          | [] -> None
+          | v :: l0 ->
+            (match v with
+             | VN s2 ->
+               (match l0 with
+                | [] ->
+                  Some (VL ((ofbool (k_eq s1 s2)) :: ((VN
+                    (cmp_code (k_cmp s1 s2))) :: [])))
+                | _ :: _ -> None)
+             | _ -> None))
+       | _ -> None))) :: (((String ((Ascii (true, true, false, true, false,
+    true, true, false)), (String ((Ascii (false, true, true, true, false,
     true, false, false)), (String ((Ascii (false, false, true, false, false,
     true, true, false)), (String ((Ascii (true, false, true, false, false,
     true, true, false)), (String ((Ascii (true, true, false, false, false,
@@ -3048,7 +3428,7 @@ let kmer_ops c =
          (match l with
           | [] -> Some (ofNs (decode c.kK s))
           | _ :: _ -> None)
-       | _ -> None))) :: [])))))))))))))))))))))
+       | _ -> None))) :: []))))))))))))))))))))))))
 
 (** val d_kmer : string -> val0 -> val0 option **)
 
@@ -3606,6 +3986,121 @@ let spec_kmer_ops k =
     true, true, false)), (String ((Ascii (false, true, true, true, false,
     true, false, false)), (String ((Ascii (true, true, false, true, false,
     true, true, false)), (String ((Ascii (false, true, true, true, false,
+    true, false, false)), (String ((Ascii (false, false, false, true, false,
+    true, true, false)), (String ((Ascii (true, false, false, true, false,
+    true, true, false)), (String ((Ascii (true, true, false, false, true,
+    true, true, false)), (String ((Ascii (false, false, true, false, true,
+    true, true, false)), EmptyString)))))))))))))))), (fun a ->
+    match a with
+    | [] -> None
+    | i :: l ->
+      (match l with
+       | [] -> None
+       | y :: l0 ->
+         (match y with
+          | VL ops ->
+            (match l0 with
+             | [] ->
+               (match v_kinit i with
+                | Some i' ->
+                  (match omap v_kop ops with
+                   | Some ops' -> Some (ofNs (shist k i' ops'))
+                   | None -> None)
+                | None -> None)
+             | _ :: _ -> None)
+          | _ -> None)))) :: (((String ((Ascii (true, true, false, false,
+    true, true, true, false)), (String ((Ascii (false, true, true, true,
+    false, true, false, false)), (String ((Ascii (true, true, false, true,
+    false, true, true, false)), (String ((Ascii (false, true, true, true,
+    false, true, false, false)), (String ((Ascii (true, true, false, false,
+    false, true, true, false)), (String ((Ascii (true, false, true, true,
+    false, true, true, false)), (String ((Ascii (false, false, false, false,
+    true, true, true, false)), EmptyString)))))))))))))), (fun a ->
+    match a with
+    | [] -> None
+    | y :: l0 ->
+      (match y with
+       | VL l ->
+         (match l0 with
+          | [] -> None
+          | v :: l1 ->
+            (match v with
+             | VL m ->
+               (match l1 with
+                | [] ->
+                  (match vlistN l with
+                   | Some d ->
+                     (match vlistN m with
+                      | Some e ->
+                        Some (VL ((ofbool (dna_eqb d e)) :: ((VN
+                          (cmp_code (dna_compare d e))) :: ((ofbool
+                                                              (dna_eqb d e)) :: []))))
+                      | None -> None)
+                   | None -> None)
+                | _ :: _ -> None)
+             | _ -> None))
+       | _ -> None))) :: (((String ((Ascii (true, true, false, false, true,
+    true, true, false)), (String ((Ascii (false, true, true, true, false,
+    true, false, false)), (String ((Ascii (true, true, false, true, false,
+    true, true, false)), (String ((Ascii (false, true, true, true, false,
+    true, false, false)), (String ((Ascii (true, true, false, false, true,
+    true, true, false)), (String ((Ascii (true, true, true, true, false,
+    true, true, false)), (String ((Ascii (false, true, false, false, true,
+    true, true, false)), (String ((Ascii (false, false, true, false, true,
+    true, true, false)), (String ((Ascii (true, true, true, true, true,
+    false, true, false)), (String ((Ascii (false, false, true, false, false,
+    true, true, false)), (String ((Ascii (true, false, true, false, false,
+    true, true, false)), (String ((Ascii (false, false, true, false, false,
+    true, true, false)), (String ((Ascii (true, false, true, false, true,
+    true, true, false)), (String ((Ascii (false, false, false, false, true,
+    true, true, false)), EmptyString)))))))))))))))))))))))))))), (fun a ->
+    match a with
+    | [] -> None
+    | y :: l ->
+      (match y with
+       | VL ls ->
+         (match l with
+          | [] ->
+            (match omap vNs ls with
+             | Some ds ->
+               Some (VL (map ofNs (dedup_by dna_eqb (sort_by dna_leb ds))))
+             | None -> None)
+          | _ :: _ -> None)
+       | _ -> None))) :: (((String ((Ascii (true, true, false, false, true,
+    true, true, false)), (String ((Ascii (false, true, true, true, false,
+    true, false, false)), (String ((Ascii (true, true, false, true, false,
+    true, true, false)), (String ((Ascii (false, true, true, true, false,
+    true, false, false)), (String ((Ascii (true, false, true, true, false,
+    true, true, false)), (String ((Ascii (true, false, true, false, false,
+    true, true, false)), (String ((Ascii (true, false, true, true, false,
+    true, true, false)), (String ((Ascii (false, true, false, false, false,
+    true, true, false)), (String ((Ascii (true, false, true, false, false,
+    true, true, false)), (String ((Ascii (false, true, false, false, true,
+    true, true, false)), EmptyString)))))))))))))))))))), (fun a ->
+    match a with
+    | [] -> None
+    | y :: l ->
+      (match y with
+       | VL ls ->
+         (match l with
+          | [] -> None
+          | v :: l0 ->
+            (match v with
+             | VL x ->
+               (match l0 with
+                | [] ->
+                  (match omap vNs ls with
+                   | Some ds ->
+                     (match vlistN x with
+                      | Some d -> Some (ofbool (existsb (dna_eqb d) ds))
+                      | None -> None)
+                   | None -> None)
+                | _ :: _ -> None)
+             | _ -> None))
+       | _ -> None))) :: (((String ((Ascii (true, true, false, false, true,
+    true, true, false)), (String ((Ascii (false, true, true, true, false,
+    true, false, false)), (String ((Ascii (true, true, false, true, false,
+    true, true, false)), (String ((Ascii (false, true, true, true, false,
     true, false, false)), (String ((Ascii (true, false, false, true, false,
     true, true, false)), (String ((Ascii (true, true, false, false, true,
     true, true, false)), (String ((Ascii (true, true, true, true, true,
@@ -3632,7 +4127,7 @@ let spec_kmer_ops k =
              | Some d -> Some (ofbool (is_palindrome d))
              | None -> None)
           | _ :: _ -> None)
-       | _ -> None))) :: []))))))))))))))))))
+       | _ -> None))) :: []))))))))))))))))))))))
 
 (** val d_spec_kmer : string -> val0 -> val0 option **)
 
